@@ -2,11 +2,17 @@
 
 package codon
 
+import (
+	"encoding/json"
+	"io/ioutil"
+)
+
 // C08: codon usage tables count exactly and never leak between calls.
 //
 // verif:bound C08 counting clause: coding sequences over all 128 ASCII values (any case, non-ACGT letters, lengths not divisible by 3), length 0..7 (quick) / 0..10 (thorough), tables 1 and 11
 // verif:bound C08 history clause: operation sequences of length 2..3 (quick) / 2..4 (thorough) over 'request default table a', 're-weight default table a with a symbolic one-codon sequence', 'add two held tables', table id pairs {1,2}, {1,11}, {27,28} (the last two share their amino-acid strings); every held table compared with a value-semantics model after every step
-// verif:bound C08 outside the claim: concurrent re-weighting and the race detector (pre-emption between synchronisation points is not modelled); serialise/parse operations; sequences longer than the bound
+// verif:bound C08 serialise/parse clause: a default table serialised to JSON text, parsed, re-weighted with a symbolic codon, the same text parsed again (must be pristine), the re-weighted table serialised and parsed (JSON text layer of the engine)
+// verif:bound C08 outside the claim: concurrent re-weighting and the race detector (pre-emption between synchronisation points is not modelled); sequences longer than the bound
 
 func c08Upper(s string) string {
 	b := make([]byte, len(s))
@@ -144,6 +150,56 @@ func Harness_C08_History() {
 		}
 	}
 	vCover("C08 history re-weights one table and requests another", reweighted[ids[0]] && touched[ids[1]] > 0 && !leak)
+}
+
+// serialise / parse as operations of the history: a table parsed from JSON text is a value of
+// its own, whatever happened to earlier tables parsed from the same text
+func Harness_C08_SerialiseParse() {
+	vJSONText()
+	id := []int{1, 11}[vChoice(2)]
+	text, err := json.Marshal(GetCodonTable(id))
+	vAssert(err == nil, "serialises")
+	a := ParseCodonJSON(text)
+	ones := map[string]int{}
+	for _, t := range c08Triplets() {
+		ones[t] = 1
+	}
+	c08Check(c08Held{a, ones, id}, "parsed-table-equals-the-serialised-one")
+	s := vBytes(3, "ACGTacgt")
+	up := c08Upper(s)
+	m := map[string]int{}
+	for _, t := range c08Triplets() {
+		m[t] = c08Count(up, t)
+	}
+	b := a.OptimizeTable(s)
+	c08Check(c08Held{b, m, id}, "re-weighted-parsed-table")
+	c := ParseCodonJSON(text)
+	c08Check(c08Held{c, ones, id}, "second-parse-of-the-same-text-is-pristine")
+	// and the text of a re-weighted table parses back to the re-weighted weights
+	text2, _ := json.MarshalIndent(b, "", " ")
+	d := ParseCodonJSON(text2)
+	c08Check(c08Held{d, m, id}, "re-weighted-table-survives-serialise-parse")
+}
+
+func Selftest_C08_JSON() {
+	vJSONText()
+	b, err := ioutil.ReadFile("../../data/bsub_codon_test.json")
+	if err != nil {
+		vOut("cannot read")
+		return
+	}
+	t := ParseCodonJSON(b)
+	out := ""
+	for _, aa := range t.AminoAcids {
+		out += aa.Letter + ":"
+		for _, c := range aa.Codons {
+			out += c.Triplet + "=" + itoa(c.Weight) + ","
+		}
+		out += ";"
+	}
+	vOut(out)
+	text, _ := json.MarshalIndent(t, "", " ")
+	vOut(string(text))
 }
 
 func Selftest_C08_Vectors() {
